@@ -1,8 +1,109 @@
-//! C18 harness entry (not implemented yet).
+//! C18: JSON / YAML copies of GdsLibrary and LefLibrary values.
+//! Input case: {"ty": "gds"|"lef", "val": <serde data-model JSON; doubles written as {"$f64": bits}>}
+//! Output: the value as serde sees it (doubles again as {"$f64": bits}) and, for JSON and YAML, whether the
+//! library's own helpers (to_string/from_str, save/open) return an equal and bit-identical value.
 use l21h::{json, Value};
+use layout21utils::SerializationFormat;
+use serde::{de::DeserializeOwned, Serialize};
 
-fn run(_case: &Value) -> Value {
-    json!({"harness_error": "not implemented"})
+fn decode_floats(v: &Value) -> Value {
+    match v {
+        Value::Object(m) => {
+            if m.len() == 1 {
+                if let Some(b) = m.get("$f64") {
+                    let bits = b.as_u64().expect("$f64 bits");
+                    return Value::Number(serde_json::Number::from_f64(f64::from_bits(bits)).expect("finite"));
+                }
+            }
+            Value::Object(m.iter().map(|(k, x)| (k.clone(), decode_floats(x))).collect())
+        }
+        Value::Array(a) => Value::Array(a.iter().map(decode_floats).collect()),
+        _ => v.clone(),
+    }
+}
+fn encode_floats(v: &Value) -> Value {
+    match v {
+        Value::Number(n) if n.is_f64() => json!({"$f64": n.as_f64().unwrap().to_bits()}),
+        Value::Object(m) => Value::Object(m.iter().map(|(k, x)| (k.clone(), encode_floats(x))).collect()),
+        Value::Array(a) => Value::Array(a.iter().map(encode_floats).collect()),
+        _ => v.clone(),
+    }
+}
+
+fn trip<T: Serialize + DeserializeOwned + PartialEq>(v: &T, fmt: SerializationFormat, ext: &str, want_text: bool) -> Value {
+    let orig = encode_floats(&serde_json::to_value(v).unwrap());
+    // string helpers
+    let text = match fmt.to_string(v) {
+        Ok(t) => t,
+        Err(e) => return json!({"to_string_err": e.to_string()}),
+    };
+    let (str_eq, str_bits) = match fmt.from_str::<T>(&text) {
+        Ok(back) => (back == *v, encode_floats(&serde_json::to_value(&back).unwrap()) == orig),
+        Err(e) => return json!({"from_str_err": e.to_string(), "text": text}),
+    };
+    // file helpers
+    let dir = std::path::Path::new("/verif/work/c18/tmp");
+    std::fs::create_dir_all(dir).unwrap();
+    let path = dir.join(format!("t{}.{}", std::process::id(), ext));
+    let (file_eq, file_bits) = match fmt.save(v, &path) {
+        Err(e) => return json!({"save_err": e.to_string()}),
+        Ok(()) => match fmt.open::<T>(&path) {
+            Ok(back) => (back == *v, encode_floats(&serde_json::to_value(&back).unwrap()) == orig),
+            Err(e) => return json!({"open_err": e.to_string(), "text": text}),
+        },
+    };
+    let _ = std::fs::remove_file(&path);
+    let ok = str_eq && str_bits && file_eq && file_bits;
+    if ok && !want_text {
+        json!({"ok": true})
+    } else {
+        json!({"ok": ok, "str_eq": str_eq, "str_bits": str_bits, "file_eq": file_eq, "file_bits": file_bits, "text": text})
+    }
+}
+
+fn run_ty<T: Serialize + DeserializeOwned + PartialEq>(val: &Value, want_text: bool) -> Result<(T, Value), Value> {
+    let v: T = match serde_json::from_value(decode_floats(val)) {
+        Ok(v) => v,
+        Err(e) => return Err(json!({"de_err": e.to_string()})),
+    };
+    let seen = encode_floats(&serde_json::to_value(&v).unwrap());
+    let j = trip(&v, SerializationFormat::Json, "json", want_text);
+    let y = trip(&v, SerializationFormat::Yaml, "yaml", want_text);
+    Ok((v, json!({"ser": seen, "json": j, "yaml": y})))
+}
+
+fn run(case: &Value) -> Value {
+    let want_text = case["want_text"].as_bool().unwrap_or(false);
+    match case["ty"].as_str().unwrap_or("") {
+        "gds" => match run_ty::<gds21::GdsLibrary>(&case["val"], want_text) {
+            Err(e) => e,
+            Ok((lib, mut out)) => {
+                // GDSII -> markup -> GDSII gives the same bytes (when the library can be written at all)
+                let mut b0: Vec<u8> = Vec::new();
+                let w0 = lib.write(std::io::Cursor::new(&mut b0)).is_ok();
+                let mut same = Vec::new();
+                for fmt in [SerializationFormat::Json, SerializationFormat::Yaml] {
+                    let r = fmt.to_string(&lib).ok().and_then(|t| fmt.from_str::<gds21::GdsLibrary>(&t).ok());
+                    match r {
+                        Some(back) => {
+                            let mut b1: Vec<u8> = Vec::new();
+                            let w1 = back.write(std::io::Cursor::new(&mut b1)).is_ok();
+                            same.push(Value::Bool(w0 == w1 && (!w0 || b0 == b1)));
+                        }
+                        None => same.push(Value::Null),
+                    }
+                }
+                out["gds_bytes_same"] = Value::Array(same);
+                out["gds_writable"] = Value::Bool(w0);
+                out
+            }
+        },
+        "lef" => match run_ty::<lef21::LefLibrary>(&case["val"], want_text) {
+            Err(e) => e,
+            Ok((_, out)) => out,
+        },
+        _ => json!({"harness_error": "bad ty"}),
+    }
 }
 
 fn main() {
